@@ -13,6 +13,8 @@ import DsdVerif.Model.Reader
 import DsdVerif.Gen.PyFuncs
 import DsdVerif.Gen.PyIupac
 import DsdVerif.Spec.PyComplexS
+import DsdVerif.DriverKernel
+import DsdVerif.DriverLegacy
 import DsdVerif.Model.Dlc
 
 namespace Dsd.Driver
@@ -580,6 +582,7 @@ def stepR (s : RState) (line : String) : RState × String :=
 structure DState where
   r : RState := {}
   py : List (Nat × Gen.ComplexS.Self) := []        -- handle ↦ the object as the translated methods left it
+  lg : DriverLegacy.LegacyDState := {}             -- the translated legacy objects (Gen/PyLegacy.lean)
 
 /-- the translated object of a handle: as it was left, or (first use) as `__init__` leaves it for the model's description -/
 def pyObj (d : DState) (id : Nat) : Option Gen.ComplexS.Self :=
@@ -625,6 +628,12 @@ def stepD (d : DState) (line : String) : DState × String :=
           | .error e => showErr e)
       | none => (d, "err Fault dead-handle")
     | none => (d, "bad-op")
-  | _ => let (r', out) := stepR d.r line; ({ d with r := r' }, out)
+  | _ =>
+    match DriverKernel.stepKernel line with
+    | some out => (d, out)
+    | none =>
+      match DriverLegacy.stepLegacy d.lg line with
+      | some (lg', out) => ({ d with lg := lg' }, out)
+      | none => let (r', out) := stepR d.r line; ({ d with r := r' }, out)
 
 end Dsd.Driver
